@@ -535,6 +535,33 @@ Definition array_args (t : arrty) (count : N) (data : bytes) : args :=
 Definition array_api_ok (t : arrty) : bool := negb ((t =? AT_CustomBinary) || (t =? AT_CustomText) || (t =? AT_Media)).
 Definition custom_api_ok (t : arrty) : bool := (t =? AT_CustomBinary) || (t =? AT_CustomText).
 
+(* rules/context_array.go ValidateMediaType: type "/" subtype, a letter first, then only
+   the characters the CTE grammar allows (CHAR_MEDIA_TYPE_NEXT); exactly one slash. *)
+Definition media_first_char (b : N) : bool :=
+  ((97 <=? b) && (b <=? 122)) || ((65 <=? b) && (b <=? 90)).
+Definition media_next_char (b : N) : bool :=
+  media_first_char b || ((48 <=? b) && (b <=? 57)) ||
+  existsb (N.eqb b) [33;35;36;37;38;39;42;43;46;94;95;96;124;126;123;125;45].
+Fixpoint media_split (l : bytes) : bytes * option bytes :=
+  match l with
+  | [] => ([], None)
+  | b :: r => if b =? 47 then ([], Some r)
+              else let '(pre, post) := media_split r in (b :: pre, post)
+  end.
+Definition media_type_valid (mt : bytes) : bool :=
+  match mt with
+  | [] => false
+  | b :: rest =>
+      media_first_char b &&
+      match media_split rest with
+      | (pre, Some (p :: post)) =>
+          forallb media_next_char pre && forallb media_next_char (p :: post)
+      | _ => false
+      end
+  end.
+(* rules/context_array.go ValidateCustomType *)
+Definition custom_type_ok (ct : N) : bool := ct <=? 4294967295.
+
 Definition dfloat_is_nan (d : dfloat) : bool := match d with DQNan | DSNan => true | _ => false end.
 
 (* One event: the new context and the events handed to the next receiver. *)
@@ -582,17 +609,19 @@ Definition rstep (cfg : rcfg) (c : rctx) (e : event) : option (rctx * list event
   | EStringArray t data =>
       if array_api_ok t then fwd1 (obind (notify_new_object cfg true c) (call_current cfg MStringlikeArray (array_args t 0 data))) else None
   | EMedia mt data =>
-      if negb (utf8_valid mt) then None else
+      if negb (utf8_valid mt && media_type_valid mt) then None else
       fwd1 (obind (notify_new_object cfg true c) (call_current cfg MArray (array_args AT_Media (blen data) data)))
   | ECustomBin ct data =>
+      if negb (custom_type_ok ct) then None else
       fwd1 (obind (notify_new_object cfg true c) (call_current cfg MArray (array_args AT_CustomBinary (blen data) data)))
   | ECustomText ct data =>
+      if negb (custom_type_ok ct) then None else
       fwd1 (obind (notify_new_object cfg true c) (call_current cfg MStringlikeArray (array_args AT_CustomText 0 data)))
   | EArrayBegin t =>
       if array_api_ok t then fwd1 (obind (notify_new_object cfg true c) (call_current cfg MArrayBegin (array_args t 0 []))) else None
-  | EMediaBegin mt => if negb (utf8_valid mt) then None else fwd1 (obind (notify_new_object cfg true c) (call_current cfg MArrayBegin (array_args AT_Media 0 [])))
+  | EMediaBegin mt => if negb (utf8_valid mt && media_type_valid mt) then None else fwd1 (obind (notify_new_object cfg true c) (call_current cfg MArrayBegin (array_args AT_Media 0 [])))
   | ECustomBegin t ct =>
-      if custom_api_ok t then fwd1 (obind (notify_new_object cfg true c) (call_current cfg MArrayBegin (array_args t 0 []))) else None
+      if custom_api_ok t && custom_type_ok ct then fwd1 (obind (notify_new_object cfg true c) (call_current cfg MArrayBegin (array_args t 0 []))) else None
   | EArrayChunk n more => fwd1 (call_current cfg MArrayChunk
       {| a_dtype := 0; a_key := None; a_id := []; a_arrty := 0; a_count := n; a_data := []; a_version := 0; a_more := more |} c)
   | EArrayData d => fwd1 (call_current cfg MArrayData (array_args 0 0 d) c)
